@@ -29,6 +29,17 @@ The bytes of the subject key (NdnPacketsCert!EncsOf / BufKinds / ContentExpect) 
    (is the bytes given; what a relying party imports from it; the certificate verifies under the key it carries); C: random.
 The time zone of the issuing process (TZ + tzset, HOSTS) is a dimension of every issuing call in B (NdnPacketsCertCfg!Hosts)
    and C (random requests, signer-reuse histories, certificates of parse histories).
+Zones with daylight-saving time (CertTimeZone, cross-validated against zoneinfo every run; laws: CertTimeZoneMC): the start / end datetimes
+   are wall-clock reading + PEP 495 fold on a zone's clock - inside the repeated interval (either pass), inside the gap (either fold),
+   start and end of one new_cert call on the same clock (zone2).  B: NdnPacketsCertCfg!DstFolds / DstGaps, the executor constructs
+   the datetime from TLC's (reading, fold); C: random readings around the changes of ten zones' clocks in any year 2008..9998.
+Issuing histories with RELATED datetimes (NdnPacketsCertTimes, NdnPacketsCertTimesTrace): one process issues many certificates whose
+   datetimes are the two passes of one reading, the same instant on other clocks, the same reading without a zone: every certificate
+   carries the instants of its own request.  A TLC checks EncodesRequested and refutes the "remember the text by the datetime" deviation;
+   B the cover paths of the state graph are replayed on the real new_cert / derive_cert and compared with TLC's states; C random
+   longer histories (any zone, year, lifetime) are judged by TLC.
+Scribbled results (NdnPacketsCertHist!Scribble): what an issuing call returned (name, buffer) and was handed (key name, issuer id)
+   is the caller's: it is overwritten in place, and the next certificates must still be named as the reference says.
 """
 import json, os, re, time
 from datetime import datetime, timedelta, timezone
@@ -51,6 +62,105 @@ T0 = datetime(1970, 1, 1)
 # signer-reuse histories, certificates issued for parse histories. West / east of UTC, with and without DST,
 # offsets that are not whole hours (+05:30, +12:45/+13:45).
 HOSTS = ['UTC', 'UTC', 'America/Los_Angeles', 'America/New_York', 'Asia/Kolkata', 'Europe/Berlin', 'Pacific/Auckland', 'Pacific/Chatham']
+
+
+# ---------------------------------------------------------------- zones with daylight-saving time (CertTimeZone)
+# The caller's datetime is a wall-clock reading + fold (PEP 495) on the clock of a zone.  The driver's side of the zone
+# arithmetic is zoneinfo; the specification's side is CertTimeZone (rules, WallOf, InstOf); the two are cross-validated every
+# run (zone_records -> CertTimeTrace) and on every request / history argument (a disagreement is a machinery failure).
+
+KNOWN_ZONES = ['Europe/Berlin', 'Europe/London', 'Europe/Lisbon', 'Europe/Helsinki', 'America/New_York', 'America/Los_Angeles',
+               'Australia/Sydney', 'Australia/Lord_Howe', 'Pacific/Auckland', 'Pacific/Chatham']     # CertTimeZone!KnownZones
+ZONE_YEARS = (2008, 9998)                                                                             # CertTimeZone!ZoneYears
+_TRANS = {}
+
+
+def inst_json(t):
+    """naive datetime (UTC, or a wall-clock reading) -> CertTime instant {d, s}"""
+    x = t.replace(tzinfo=None, fold=0) - T0
+    return {'d': x.days, 's': x.seconds}
+
+
+def inst_dt(i):
+    return T0 + timedelta(days=i['d'], seconds=i['s'])
+
+
+def to_utc(dt):
+    """the instant an aware datetime denotes, as a naive UTC datetime (year 1 / 9999 edges: OverflowError)"""
+    return dt.astimezone(UTC).replace(tzinfo=None)
+
+
+def wall_dt(zone, w, fold):
+    """the aware datetime a caller writes: reading w = {d, s} on the clock of `zone`, with `fold`"""
+    return inst_dt(w).replace(tzinfo=ZoneInfo(zone), fold=fold)
+
+
+def zone_changes(zone, year):
+    """[(instant of the change (naive UTC), offset before, offset after (timedelta))] of `zone` in `year`, found by
+    bisection on zoneinfo's utcoffset - the driver does not read the rules of the specification."""
+    if (zone, year) not in _TRANS:
+        z = ZoneInfo(zone)
+
+        def off(t):
+            return t.replace(tzinfo=UTC).astimezone(z).utcoffset()
+        out = []
+        t = datetime(year, 1, 1)
+        while t.year == year and t < datetime(year, 12, 31):
+            n = t + timedelta(days=1)
+            if off(t) != off(n):
+                lo, hi = t, n
+                while hi - lo > timedelta(seconds=1):
+                    mid = lo + (hi - lo) // 2
+                    mid = mid.replace(microsecond=0)
+                    if off(mid) == off(lo):
+                        lo = mid
+                    else:
+                        hi = mid
+                out.append((hi, off(lo), off(hi)))
+            t = n
+        _TRANS[zone, year] = out
+    return _TRANS[zone, year]
+
+
+def rand_zone_year(rng):
+    return rng.choice([2008, 2024, 2024, 2025, 2037, 2038, 2100, ZONE_YEARS[1], rng.randint(*ZONE_YEARS)])
+
+
+def rand_near_change(rng, zone, year=None, repeated=None):
+    """-> (aware datetime on the clock of `zone`, the change it lies next to).  The reading is chosen on the WALL clock
+    around a change of the zone's clock: inside the repeated interval (either pass), inside the gap (either fold), at
+    the edges, or some hours away."""
+    ch = zone_changes(zone, year or rand_zone_year(rng))
+    if repeated is not None:
+        ch = [c for c in ch if (c[2] < c[1]) == repeated]
+    at, before, after = rng.choice(ch)
+    step = abs(before - after)
+    lo = at + min(before, after)                # first reading of the repeated interval / of the gap
+    x = rng.random()
+    if x < 0.6:
+        w = lo + timedelta(seconds=rng.choice([0, 1, step.seconds // 2, step.seconds - 1, rng.randrange(step.seconds)]))
+    elif x < 0.8:
+        w = lo + timedelta(seconds=rng.choice([-1, step.seconds, -step.seconds, 2 * step.seconds - 1]))
+    else:
+        w = lo + timedelta(seconds=rng.randrange(-4 * 3600, 5 * 3600))
+    return w.replace(tzinfo=ZoneInfo(zone), fold=rng.randint(0, 1)), (at, before, after)
+
+
+def zone_records(rng, n):
+    """records for CertTimeTrace!JudgeZone: instants and readings around the changes of every known zone's clock"""
+    recs = []
+    for k in range(n):
+        zone = KNOWN_ZONES[k % len(KNOWN_ZONES)]
+        z = ZoneInfo(zone)
+        rd, (at, _b, _a) = rand_near_change(rng, zone)
+        i = at + timedelta(seconds=rng.choice([-3601, -3600, -1800, -1, 0, 1, 1799, 1800, 3599, 3600, rng.randrange(-90000, 90000)]))
+        if rng.random() < 0.2:
+            i = datetime(at.year, 1, 1) + timedelta(seconds=rng.randrange(365 * 86400))
+        loc = i.replace(tzinfo=UTC).astimezone(z)
+        recs.append({'zone': zone, **inst_json(i), 'wd': inst_json(loc)['d'], 'ws': inst_json(loc)['s'], 'fold': loc.fold,
+                     'rd': inst_json(rd)['d'], 'rs': inst_json(rd)['s'], 'rf': rd.fold,
+                     'id': inst_json(to_utc(rd))['d'], 'is': inst_json(to_utc(rd))['s']})
+    return recs
 
 
 # ---------------------------------------------------------------- the bytes of the subject key
@@ -273,28 +383,72 @@ def in_zone(inst, tz):
     return base.replace(tzinfo=UTC).astimezone(timezone(timedelta(minutes=tz)))
 
 
+def norm_q(q):
+    """requests written before the zone fields existed (replay files, hand-built requests): the fields every judged request has"""
+    try:
+        end = inst_json(inst_dt(q['start']) + timedelta(seconds=q['dur']))
+    except OverflowError:
+        end = dict(q['start'])
+    for k, v in (('zone', ''), ('zone2', ''), ('sw', dict(q['start'])), ('sf', 0), ('ew', end), ('ef', 0)):
+        q.setdefault(k, v)
+    return q
+
+
+def _in_named_zone(zone, inst, w, fold, what):
+    """the aware datetime for `inst` on the clock of `zone`.  With a reading given (TLC's, or the driver's own record of what it
+    wrote) the datetime is CONSTRUCTED from reading + fold; that it denotes the instant is the spec's claim (ArgsDenote),
+    re-checked here with zoneinfo: a disagreement of the two oracles is a machinery failure."""
+    if w is None:
+        return inst.replace(tzinfo=UTC).astimezone(ZoneInfo(zone))
+    dt = wall_dt(zone, w, fold)
+    if to_utc(dt) != inst:
+        raise MachineryError('CertTimeZone and zoneinfo disagree: %s reading %s fold %d in %s is %s UTC, the request says %s'
+                             % (what, inst_dt(w).isoformat(), fold, zone, to_utc(dt).isoformat(), inst.isoformat()))
+    return dt
+
+
 def start_datetime(q):
     if q.get('zone'):
-        base = T0 + timedelta(days=q['start']['d'], seconds=q['start']['s'])
-        return base.replace(tzinfo=UTC).astimezone(ZoneInfo(q['zone']))
+        return _in_named_zone(q['zone'], inst_dt(q['start']), q.get('sw'), q.get('sf', 0), 'start')
     return in_zone(q['start'], q['tz'])
 
 
 def end_datetime(q):
-    """new_cert: the end instant (start + lifetime) expressed in its own zone tz2"""
+    """new_cert: the end instant (start + lifetime) expressed in its own zone (zone2, else the fixed offset tz2)"""
     t = T0 + timedelta(days=q['start']['d'], seconds=q['start']['s'] + q['dur'])
+    if q.get('zone2'):
+        return _in_named_zone(q['zone2'], t, q.get('ew'), q.get('ef', 0), 'end')
     return in_zone({'d': (t - T0).days, 's': (t - T0).seconds}, q['tz2'])
+
+
+def reading_class(dt):
+    """how an aware datetime of a named zone relates to the changes of its clock"""
+    a, b = to_utc(dt.replace(fold=0)), to_utc(dt.replace(fold=1))
+    if a == b:
+        return 'dst-zone'
+    shown = a.replace(tzinfo=UTC).astimezone(dt.tzinfo).replace(tzinfo=None) == dt.replace(tzinfo=None)
+    return ('%s-pass-of-a-repeated-reading' % ('second' if dt.fold else 'first')) if shown else 'reading-inside-the-gap-fold-%d' % dt.fold
 
 
 def _zc(tz):
     return 'naive' if tz == NAIVE else 'utc' if tz == 0 else 'aware-non-utc'
 
 
-def zone_class(q):
+def zone_class(q, which=None):
+    """class of the request's time arguments for signatures; which = 'nb' / 'na': only the datetime that instant came from"""
     if q['fn'] in ('derive', 'new_cert') and (T0 + timedelta(days=q['start']['d'])).year < 1000:
         return 'year-below-1000'
-    if q['fn'] in ('derive', 'new_cert') and q.get('zone'):
-        return 'dst-zone-start'
+    if q['fn'] in ('derive', 'new_cert') and (q.get('zone') or q.get('zone2')):
+        try:
+            cs, ce = (reading_class(start_datetime(q)) if q.get('zone') else ''), (reading_class(end_datetime(q)) if q.get('zone2') else '')
+        except (MachineryError, OverflowError, ValueError):
+            cs = ce = 'dst-zone'
+        if (cs, ce) in (('dst-zone', ''), ('dst-zone', 'dst-zone')) or q['fn'] == 'derive' and cs == 'dst-zone':
+            return 'dst-zone-start'
+        cs, ce = cs or _zc(q['tz']), ce or ('computed' if q['fn'] == 'derive' else _zc(q['tz2']))
+        if which == 'nb' or which == 'na' and q['fn'] == 'derive':
+            return 'start-' + cs
+        return 'end-' + ce if which == 'na' else 'start-%s-end-%s' % (cs, ce)
     if q.get('host', 'UTC') != 'UTC':
         return ('clock' if q['fn'] in ('self_sign', 'sign_req') else _zc(q['tz'])) + '/non-utc-host'
     if q['fn'] == 'derive':
@@ -366,11 +520,12 @@ def issuer_arg(q, rng):
     raise MachineryError('unknown issuer-id form %r' % form)
 
 
-def issue(q, rng, pool, target=True, live=None, keyname=None):
+def issue(q, rng, pool, target=True, live=None, keyname=None, times=None, mutable_args=False):
     """Run the real function. Returns a Built-like object.
-    live = (signer object, concrete locator name): issue with this long-lived signer instead of a fresh one."""
+    live = (signer object, concrete locator name): issue with this long-lived signer instead of a fresh one.
+    times = (start datetime, end datetime): hand over these very datetimes (issuing histories) instead of building them from q."""
     b = pk.Built()
-    b.q = q
+    b.q = norm_q(q)
     b.given = Given(q, rng, pool)
     b.pub = b.given.snapshot
     b.keyname = keyname or key_name_bytes(q, rng)
@@ -381,25 +536,35 @@ def issue(q, rng, pool, target=True, live=None, keyname=None):
         b.kl = pk.name_bytes(q['sg']['kl'], rng) if q['sg']['haskl'] else None
         b.rec = pk.make_signer(q['sg'], rng, pool, b.kl, target)
     b.exc = b.wire = b.cert_name = None
+    # the objects handed in: with mutable_args the key name is a list of bytearrays and a component issuer id a bytearray - the
+    # caller's own objects, which it may overwrite after the call (scribble_over)
+    key_arg = [bytearray(c) for c in b.keyname] if mutable_args else b.keyname
+    b.handed = list(key_arg) if mutable_args else []
     b.issuer_bytes = {'self_sign': b'\x08\x04self', 'sign_req': b'\x08\x0ccert-request'}.get(q['fn'])
     if q['fn'] in ('new_cert', 'derive'):
         try:
-            t_start, t_end = start_datetime(q), (end_datetime(q) if q['fn'] == 'new_cert' else None)
+            t_start, t_end = times or (start_datetime(q), (end_datetime(q) if q['fn'] == 'new_cert' else None))
         except OverflowError as e:
             raise MachineryError('request with a start/end that is not a datetime in its zone: %r' % e)
     with Clock(q['clock'], q.get('host', 'UTC')) as ck:
         b.ms = ck.ms
         try:
             if q['fn'] == 'self_sign':
-                b.cert_name, w = sv2.self_sign(b.keyname, b.given.buf, b.rec)
+                b.cert_name, w = sv2.self_sign(key_arg, b.given.buf, b.rec)
             elif q['fn'] == 'sign_req':
-                b.cert_name, w = sv2.sign_req(b.keyname, b.given.buf, b.rec)
+                b.cert_name, w = sv2.sign_req(key_arg, b.given.buf, b.rec)
             elif q['fn'] == 'new_cert':
                 b.issuer_arg, b.issuer_bytes = issuer_arg(dict(q, idform='comp'), rng)
-                b.cert_name, w = sv2.new_cert(b.keyname, b.issuer_arg, b.given.buf, b.rec, t_start, t_end)
+                if mutable_args:
+                    b.issuer_arg = bytearray(b.issuer_arg)
+                    b.handed.append(b.issuer_arg)
+                b.cert_name, w = sv2.new_cert(key_arg, b.issuer_arg, b.given.buf, b.rec, t_start, t_end)
             else:
                 b.issuer_arg, b.issuer_bytes = issuer_arg(q, rng)
-                b.cert_name, w = sv2.derive_cert(b.keyname, b.issuer_arg, b.given.buf, b.rec, t_start, q['dur'])
+                if mutable_args and not isinstance(b.issuer_arg, str):
+                    b.issuer_arg = bytearray(b.issuer_arg)
+                    b.handed.append(b.issuer_arg)
+                b.cert_name, w = sv2.derive_cert(key_arg, b.issuer_arg, b.given.buf, b.rec, t_start, q['dur'])
             b.raw = w                 # the caller's buffer, kept alive (re-read later: must not change)
             b.given.scramble()        # the caller's key buffer is the caller's: reused right after the call
             b.wire = bytes(w)
@@ -427,6 +592,7 @@ def field_checks(q, b, lay):
     comps = [wire[c[1]:c[3]] for c in st.read_elements(wire, nm[2] + nm[3], nm[2] + nm[3] + nm[4])]
     ver = b'\x36' + st.write_var(len(st.uint_bytes(b.ms))) + st.uint_bytes(b.ms)
     want_name = b.keyname + [b.issuer_bytes, ver]
+    b.obs_name = comps
     if comps[:-2] != b.keyname:
         bad.append(('name/key-name', 'certificate name does not start with the key name'))
     elif comps[-2:-1] != [b.issuer_bytes]:
@@ -450,7 +616,7 @@ def field_checks(q, b, lay):
         cert = sv2.parse_certificate(wire)
         si = cert.signature_info
         got = {
-            'name': [bytes(c) for c in cert.name] == want_name,
+            'name': [bytes(c) for c in cert.name] == comps,       # (the name of the wire; whether THAT is the requested one: above)
             'content': bytes(cert.content if cert.content is not None else b'') == on_wire and (cert.content is not None or not on_wire),
             'content-type': cert.meta_info is not None and cert.meta_info.content_type == 2,
             'signature-type': si is not None and si.signature_type == SIGTYPE[q['sg']['kind']] or not q['sg']['st'],
@@ -466,7 +632,7 @@ def field_checks(q, b, lay):
         bad.append(('parse_certificate/exception-' + type(e).__name__, 'parse_certificate raised %r' % e))
     try:
         name, meta, content, sp = parse_data(wire)
-        if [bytes(c) for c in name] != want_name:
+        if [bytes(c) for c in name] != comps:
             bad.append(('parse_data/name', 'parse_data returns another name'))
         if bytes(content if content is not None else b'') != on_wire:
             bad.append(('parse_data/content', 'parse_data returns another content'))
@@ -506,9 +672,11 @@ def signature_checks(q, b, signed_ivs, sv, pool):
     return bad
 
 
-def check_issued(ctx, q, exp, b, pool, stage, label=None, rep=None):
+def check_issued(ctx, q, exp, b, pool, stage, label=None, rep=None, scribbled=()):
     """exp: TLC's expectation (stage B) or None (stage C). Returns the observed layout or None.
-    label: replaces the function name in violation signatures (signer-reuse histories)."""
+    label: replaces the function name in violation signatures (signer-reuse histories).
+    scribbled: byte strings the caller wrote over earlier results / arguments of the history: a name component that is one
+    of them gets the signature of that situation."""
     fn = label or FN_NAME[q['fn']]
     rep = rep or {'kind': 'req', 'stage': stage, 'q': q}
     if b.exc is not None:
@@ -554,14 +722,20 @@ def check_issued(ctx, q, exp, b, pool, stage, label=None, rep=None):
             return lay          # TLC will reject the layout
         raise MachineryError('reference layout lacks an expected element')
     for clause, what in field_checks(q, b, lay):
-        ctx.violation('C16/%s/%s' % (fn, clause), what, rep)
+        if clause.startswith('name/') and any(c in scribbled for c in getattr(b, 'obs_name', [])):
+            ctx.violation('C16/%s/history/name-after-scribbled-result' % FN_NAME[q['fn']],
+                          '%s after the caller overwrote, in place, the objects of an EARLIER result (returned name, buffer) and of its arguments: '
+                          'the new certificate is named %s - it carries the bytes the caller wrote there; expected %s. %s'
+                          % (FN_NAME[q['fn']], [c.hex() for c in b.obs_name], [c.hex() for c in b.keyname + [b.issuer_bytes]] + ['<version>'], what), rep)
+        else:
+            ctx.violation('C16/%s/%s' % (fn, clause), what, rep)
     if exp is not None:
         nb, na = list(val(b.wire, find(lay, 254)[0])), list(val(b.wire, find(lay, 255)[0]))
         if nb != exp['nb']:
-            ctx.violation('C16/%s/validity/not-before/%s' % (fn, zone_class(q)),
+            ctx.violation('C16/%s/validity/not-before/%s' % (fn, zone_class(q, 'nb')),
                           'NotBefore is %r, requested %r' % (bytes(nb), bytes(exp['nb'])), rep)
         if na not in exp['na']:
-            ctx.violation('C16/%s/validity/not-after/%s' % (fn, zone_class(q)),
+            ctx.violation('C16/%s/validity/not-after/%s' % (fn, zone_class(q, 'na')),
                           'NotAfter is %r, requested %s' % (bytes(na), [bytes(x) for x in exp['na']]), rep)
         signed_ivs, sv = exp['signed'], exp['sv'][0]
     else:
@@ -600,6 +774,9 @@ def rand_key_form(rng, pool, subj):
     enc = 'spki' if x < 0.3 else 'opaque' if x < 0.42 else rng.choice(ENCS[subj])
     n = rng.choice(OPAQUE_LENS + [rng.randrange(600)]) if enc == 'opaque' else len(key_forms(pool)[subj, enc])
     return enc, rng.choice(BUF_KINDS), n
+
+
+DST_ZONES = ['America/New_York', 'Europe/Berlin', 'Australia/Sydney', 'America/Los_Angeles', 'Europe/London', 'Europe/Lisbon', 'Africa/Casablanca']
 
 
 def rand_req(rng, pool):
@@ -647,24 +824,46 @@ def rand_req(rng, pool):
     forms = ['comp', 'typed'] + (['escaped'] if issuer['l'] > 0 else []) + (['plain'] * 2 if issuer['t'] == 8 and issuer['l'] > 0 else []) \
         + (['short'] * 2 if issuer['t'] in SHORTHAND and issuer['l'] in (1, 2, 4, 8) else [])
     idform = rng.choice(forms) if fn == 'derive' else 'comp'
-    zone = ''
+    zone = zone2 = ''
+    near = None
     if fn in ('derive', 'new_cert') and rng.random() < 0.15:
-        zone, tz = rng.choice(['America/New_York', 'Europe/Berlin', 'Australia/Sydney', 'America/Los_Angeles', 'Europe/London', 'Europe/Lisbon', 'Africa/Casablanca']), 0
+        zone, tz = rng.choice(DST_ZONES), 0
         if rng.random() < 0.5:      # right before a change of the zone's clock
             start = {'d': days(*rng.choice([(2024, 3, 9), (2024, 3, 30), (2024, 10, 26), (2024, 11, 2), (2025, 4, 5), (2025, 10, 4)])),
                      's': rng.randrange(86400)}
+    if fn in ('derive', 'new_cert') and rng.random() < 0.12:
+        # the start is WRITTEN on the wall clock of a zone around a change of its clock - inside the repeated interval (either
+        # pass), inside the gap (either fold), at the edges; the lifetime is the step, a multiple of it, or anything; new_cert's
+        # end is written on the same clock (the other pass of the same reading when the lifetime is the step), another zone's, or a fixed one
+        zone, tz = rng.choice(KNOWN_ZONES), 0
+        near, (_at, before, after) = rand_near_change(rng, zone)
+        start = inst_json(to_utc(near))
+        step = abs(before - after).seconds
+        dur = rng.choice([step, step, 2 * step, step - 1, step + 1, 86400] + ([dur] if near.year < 9970 else []))
+        if fn == 'new_cert':
+            zone2 = rng.choice([zone, zone, rng.choice(KNOWN_ZONES), ''])
+    elif fn == 'new_cert' and rng.random() < 0.1:
+        zone2 = rng.choice(DST_ZONES)
     if fn in ('derive', 'new_cert') and rng.random() < 0.04:
         start = {'d': days(rng.choice([1, 99, 999, 1000, 1582, 1900, 1969]), rng.choice([1, 12]), rng.choice([1, 28])), 's': rng.randrange(86400)}
+        near = None
     host = rng.choice(HOSTS)
     enc, pubbuf, publen = rand_key_form(rng, pool, subj)
     q = {'fn': fn, 'subj': subj, 'keyname': keyname, 'lit': lit, 'publen': publen, 'issuer': issuer, 'idform': idform,
-         'sg': sg, 'clock': clock, 'start': start, 'dur': dur, 'tz': tz, 'tz2': tz2, 'zone': zone, 'host': host,
-         'enc': enc, 'pubbuf': pubbuf}
+         'sg': sg, 'clock': clock, 'start': start, 'dur': dur, 'tz': tz, 'tz2': tz2 if not zone2 else 0, 'zone': zone, 'host': host,
+         'enc': enc, 'pubbuf': pubbuf, 'zone2': zone2}
     try:        # the caller's datetimes must exist (0001-01-01T07:00 UTC has no wall-clock reading at UTC-8)
-        start_datetime(q), end_datetime(q)
+        # the reading + fold the caller writes (what the judge's ArgsDenote is evaluated on): the one chosen on the wall clock,
+        # else the one zoneinfo gives for the instant
+        a = near if near is not None else start_datetime(q)
+        e = end_datetime(q)
+        q.update(sw=inst_json(a) if zone else dict(start), sf=a.fold if zone else 0,
+                 ew=inst_json(e) if zone2 else inst_json(inst_dt(start) + timedelta(seconds=dur)), ef=e.fold if zone2 else 0)
     except OverflowError:
         q['tz'] = q['tz2'] = NAIVE
-        q['zone'] = ''
+        q['zone'] = q['zone2'] = ''
+        q.pop('sw', None)
+        norm_q(q)
     return q
 
 
@@ -781,10 +980,21 @@ def run_history(ctx, kind, init, steps, shapes, pool, stage, host=None):
             return 0
         return next((i for i, nm in names.items() if nm == now), 0)
     ev, certs, held = [], [], []
+    owned = []              # per issuance: the objects that now belong to the caller (returned name, returned buffer, arguments)
+    scribbles = set()       # what stands in those objects after the caller overwrote them
     hist_rep = {'kind': 'history', 'signer': kind, 'init': init, 'steps': [list(x) for x in steps],
                 'shapes': {str(k): v for k, v in shapes.items()}, 'host': host}
     for stp in steps:
-        if stp[0] == 'SetLocator':
+        if stp[0] == 'Scribble':
+            i = stp[1]
+            if not 0 < i <= len(owned):
+                raise MachineryError('history scribbles over result #%d of %d' % (i, len(owned)))
+            if owned[i - 1] is not None:
+                scribbles |= scribble_over(*owned[i - 1])
+                owned[i - 1] = None
+            held[i - 1] = None          # its holder edited it: no longer expected to be what it was
+            ev.append({'a': 'Scribble', 'i': i, 'after': configured()})
+        elif stp[0] == 'SetLocator':
             cur = stp[1]
             live.set_locator(names[cur])
             ev.append({'a': 'SetLocator', 'l': cur, 'after': configured()})
@@ -798,13 +1008,18 @@ def run_history(ctx, kind, init, steps, shapes, pool, stage, host=None):
                  'publen': publen, 'issuer': {'t': 8, 'l': 3}, 'idform': 'plain', 'tz2': NAIVE, 'zone': '', 'host': host, 'sg': live.sg(shapes[cur]),
                  'clock': {'d': 20000 + len(ev), 's': 3600, 'ms': 5}, 'start': {'d': 19000, 's': 0}, 'dur': 86400, 'tz': NAIVE}
             before = configured()
-            b = issue(q, ctx.rng, pool, target=False, live=(live.obj, names[cur]), keyname=keyname)
+            b = issue(q, ctx.rng, pool, target=False, live=(live.obj, names[cur]), keyname=keyname, mutable_args=True)
             if b.rec.actual is not None and q['sg']['kind'] == 'ecdsa':
                 q['sg']['a'] = b.rec.actual
             if q['sg']['a'] < 0:
                 q['sg']['a'] = q['sg']['r']
-            lay = check_issued(ctx, q, None, b, pool, stage, label='%s@reused-%s-signer' % (FN_NAME[fn], kind), rep=hist_rep)
+            lay = check_issued(ctx, q, None, b, pool, stage, label='%s@reused-%s-signer' % (FN_NAME[fn], kind), rep=hist_rep,
+                               scribbled=scribbles)
+            owned.append(None if b.exc is not None else (b.cert_name, b.raw, b.handed))
             seen = 0
+            iss = 'other'
+            if lay and getattr(b, 'obs_name', None):
+                iss = 'ref' if b.obs_name[-2] == b.issuer_bytes else 'scribbled' if b.obs_name[-2] in scribbles else 'other'
             if lay:
                 kls = find(lay, 28, 2)
                 if kls:
@@ -828,7 +1043,7 @@ def run_history(ctx, kind, init, steps, shapes, pool, stage, host=None):
                 ctx.violation('C16/signer-reuse/%s/%s/issuing-reconfigured-the-signer' % (kind, fn),
                               '%s changed the key locator configured in the signer it was given (configured #%d, afterwards #%d)'
                               % (FN_NAME[fn], before, after), hist_rep)
-            ev.append({'a': 'Issue', 'fn': fn, 'kl': seen, 'after': after})
+            ev.append({'a': 'Issue', 'fn': fn, 'kl': seen, 'iss': iss, 'after': after})
             rec = {'q': q, 'refused': b.exc is not None, 'lay': pk.lay_json(lay or []), 'nb': [], 'na': [], 'signed': [],
                    'content': getattr(b, 'content', NO_CONTENT)}
             if lay and len(find(lay, 254)) == 1 and len(find(lay, 255)) == 1:
@@ -836,16 +1051,59 @@ def run_history(ctx, kind, init, steps, shapes, pool, stage, host=None):
                 rec['na'] = list(val(b.wire, find(lay, 255)[0]))
                 rec['signed'] = [{'lo': lay[0][3], 'hi': lay[-1][2]}]
             certs.append(rec)
-        if held and (stp[0] != 'Issue' or len(held) > 1) and ctx.rng.random() < 0.5:
-            ev.append(recheck(ctx, kind, held, hist_rep))
+        if held and (stp[0] != 'Issue' or len(held) > 1) and (stp[0] == 'Scribble' or ctx.rng.random() < 0.5):
+            ev.append(recheck(ctx, kind, held, hist_rep, scribbles))
     if held:
-        ev.append(recheck(ctx, kind, held, hist_rep))
+        ev.append(recheck(ctx, kind, held, hist_rep, scribbles))
+    contain_damage(ctx)
     return {'signer': kind, 'init': init, 'ev': ev, 'rep': hist_rep}, certs
 
 
-def recheck(ctx, kind, held, rep):
-    """The application kept the buffers, names and parse results it was handed: they must still be what they were."""
+LIB_WORDS = {k: bytes(v) for k, v in vars(sv2).items() if isinstance(v, bytearray)}
+
+
+def contain_damage(ctx):
+    """Containment, not a check: when scribbling over a RESULT has changed a mutable module-level object of the library (reported
+    by the history that did it), put the object back, so that one finding does not repeat itself in every later certificate of the run."""
+    for k, v in LIB_WORDS.items():
+        cur = getattr(sv2, k, None)
+        if isinstance(cur, bytearray) and bytes(cur) != v:
+            cur[:] = v
+            if k not in getattr(ctx, 'c16_contained', set()):
+                ctx.c16_contained = getattr(ctx, 'c16_contained', set()) | {k}
+                ctx.note('containment: security_v2.%s was changed through a returned certificate name; restored after each such history' % k)
+
+
+def scribble_over(name, raw, handed):
+    """The caller overwrites, in place, every mutable object it owns after an issuing call: each component of the returned name
+    (the value bytes; the TL header is kept, so the name stays a name), the list itself, the returned buffer, and the mutable
+    arguments it handed in.  -> the byte strings that now stand in those components."""
+    out, seen = set(), set()
+    for o in list(name) + list(handed):
+        if id(o) in seen or isinstance(o, memoryview) and o.readonly or not isinstance(o, (bytearray, memoryview)):
+            continue
+        seen.add(id(o))     # (a returned name may contain the very objects handed in as the key name)
+        try:
+            els = st.read_elements(bytes(o), 0, len(o))
+            h = els[0][2] if len(els) == 1 else 0
+        except st.TlvError:
+            h = 0
+        for i in range(h, len(o)):
+            o[i] ^= 0x5a
+        out.add(bytes(o))
+    if isinstance(name, list):
+        name.append(bytearray(b'\x08\x05dirty'))
+    if isinstance(raw, bytearray):
+        for i in range(len(raw)):
+            raw[i] ^= 0x5a
+    return out
+
+
+def recheck(ctx, kind, held, rep, scribbles=()):
+    """The application kept the buffers, names and parse results it was handed: they must still be what they were
+    (entries the caller scribbled over itself are None)."""
     same = []
+    e = {'a': 'Recheck'}
     for h in held:
         ok = True
         if h is not None:
@@ -858,10 +1116,18 @@ def recheck(ctx, kind, held, rep):
             ok = bytes(h['raw']) == h['wire'] and [bytes(c) for c in h['cert_name']] == h['cert_name_snap'] and now == h['parsed_snap']
             if not ok:
                 what = 'returned-buffer' if bytes(h['raw']) != h['wire'] else 'returned-name' if [bytes(c) for c in h['cert_name']] != h['cert_name_snap'] else 'parse-result'
-                ctx.violation('C16/signer-reuse/%s/%s/held-certificate-changed/%s' % (kind, h['fn'], what),
-                              'a certificate issued earlier (%s kept by the caller) changed after later operations' % what, rep)
+                if what == 'returned-name' and any(bytes(c) in scribbles for c in h['cert_name']):
+                    e.update(why='scribbled-result', cfn=h['fn'])
+                    ctx.violation('C16/%s/history/held-name-after-scribbled-result' % FN_NAME[h['fn']],
+                                  'the certificate name returned by an earlier %s changed when the caller overwrote, in place, ANOTHER result of the '
+                                  'history: it now reads %s, it was %s' % (FN_NAME[h['fn']], [bytes(c).hex() for c in h['cert_name']],
+                                                                           [c.hex() for c in h['cert_name_snap']]), rep)
+                else:
+                    ctx.violation('C16/signer-reuse/%s/%s/held-certificate-changed/%s' % (kind, h['fn'], what),
+                                  'a certificate issued earlier (%s kept by the caller) changed after later operations' % what, rep)
         same.append(ok)
-    return {'a': 'Recheck', 'same': same}
+    e['same'] = same
+    return e
 
 
 def judge_histories(ctx, hists, certs, stage):
@@ -871,39 +1137,59 @@ def judge_histories(ctx, hists, certs, stage):
         h = hists[i]
         k = int(str(at).strip() or 0)
         e = h['ev'][k - 1] if 0 < k <= len(h['ev']) else {'a': 'end'}
-        ctx.violation('C16/signer-reuse/%s/%s/%s' % (h['signer'], e.get('fn', e['a']),
-                      'held-certificate-changed' if e['a'] == 'Recheck' else 'key-locator-not-the-configured-one'),
-                      'history on one %s signer rejected by NdnPacketsCertHistTrace at event %s %s: the certificate names locator #%s; '
-                      'events %s' % (h['signer'], k, e, e.get('kl'), h['ev']), dict(h['rep'], rejected_at=k))
+        if e['a'] == 'Issue' and e.get('iss') == 'scribbled':
+            sig = 'C16/%s/history/name-after-scribbled-result' % FN_NAME[e['fn']]
+        elif e['a'] == 'Recheck' and e.get('why') == 'scribbled-result':
+            sig = 'C16/%s/history/held-name-after-scribbled-result' % FN_NAME[e['cfn']]
+        else:
+            sig = 'C16/signer-reuse/%s/%s/%s' % (h['signer'], e.get('fn', e['a']),
+                                                 'held-certificate-changed' if e['a'] == 'Recheck' else
+                                                 'issuer-id-not-the-reference' if e['a'] == 'Issue' and e.get('iss') != 'ref' else
+                                                 'key-locator-not-the-configured-one')
+        ctx.violation(sig, 'history on one %s signer rejected by NdnPacketsCertHistTrace at event %s %s: the certificate names locator #%s, '
+                      'its issuer id is %s; events %s' % (h['signer'], k, e, e.get('kl'), e.get('iss'), h['ev']), dict(h['rep'], rejected_at=k))
     report_rejected(ctx, certs, pk.judge(ctx, 'NdnPacketsCertTrace', 'NdnPacketsCertTrace.cfg', certs, 'c16-histcerts-' + stage),
                     stage + '-history')
     return rej
 
 
 def hist_stage_a(ctx):
-    inv = dict(invariants=['TypeOK'], properties=['LocatorAtIssue', 'IssuedStable'])
+    from concurrent.futures import ThreadPoolExecutor
+    inv = dict(invariants=['TypeOK'], properties=['LocatorAtIssue', 'NamedAtIssue', 'IssuedStable'])
     n, m = ctx.pick((3, 4), (3, 6))
-    cp = os.path.join(tlc.BUILD, 'NdnPacketsCertHist_a.cfg')
-    tlc.write_cfg(cp, constants={'NLoc': n, 'MaxSteps': m, 'DevCache': 'FALSE', 'Fns': ALL_FNS}, **inv)
-    r = tlc.run('NdnPacketsCertHist', cp, workers=2, heavy=False)
+    small = {'NLoc': 2, 'MaxSteps': 3, 'DevCache': 'FALSE', 'DevShare': 'FALSE', 'Fns': ALL_FNS}
+
+    def job(tag, consts, kw):
+        cp = os.path.join(tlc.BUILD, 'NdnPacketsCertHist_%s_%s.cfg' % (tag, ctx.tier))
+        tlc.write_cfg(cp, constants=consts, **kw)
+        return tlc.run('NdnPacketsCertHist', cp, workers=2 if tag == 'a' else 1, heavy=False, tag='NdnPacketsCertHist-' + tag)
+    jobs = [('a', dict(small, NLoc=n, MaxSteps=m), inv),
+            # the properties must be able to fail: the "build the KeyLocator once" and the "returned name contains the library's own
+            # mutable words" deviations are refuted by TLC
+            ('cache', dict(small, DevCache='TRUE'), inv), ('share', dict(small, DevShare='TRUE'), inv)]
+    jobs += [('w-' + w, small, dict(invariants=[w])) for w in ('W_ChangedBetween', 'W_ChangedBeforeFirstUse', 'W_IssuedAfterScribble')]
+    with ThreadPoolExecutor(max_workers=len(jobs)) as ex:
+        res = list(ex.map(lambda j: job(*j), jobs))
+    r = res[0]
     ctx.add_tlc('NdnPacketsCertHist NLoc=%d MaxSteps=%d' % (n, m), r)
     if r.violated:
         ctx.violation('C16/spec/NdnPacketsCertHist/%s' % r.violated, 'TLC: %s violated' % r.violated, {'trace': r.errtrace[:3000]})
-    # the property must be able to fail: the "build the KeyLocator once" deviation is refuted by TLC
-    tlc.write_cfg(cp, constants={'NLoc': 2, 'MaxSteps': 3, 'DevCache': 'TRUE', 'Fns': ALL_FNS}, **inv)
-    if tlc.run('NdnPacketsCertHist', cp, workers=1, heavy=False).violated != 'LocatorAtIssue':
-        raise MachineryError('LocatorAtIssue does not refute the cached-locator deviation')
-    for w in ('W_ChangedBetween', 'W_ChangedBeforeFirstUse'):
-        tlc.write_cfg(cp, constants={'NLoc': 2, 'MaxSteps': 3, 'DevCache': 'FALSE', 'Fns': ALL_FNS}, invariants=[w])
-        if tlc.run('NdnPacketsCertHist', cp, workers=1, heavy=False).violated != w:
-            raise MachineryError('witness %s not reachable' % w)
+    elif not r.ok:
+        raise MachineryError('NdnPacketsCertHist: TLC failed:\n%s' % r.out[-2000:])
+    if res[1].violated != 'LocatorAtIssue':
+        raise MachineryError('LocatorAtIssue does not refute the cached-locator deviation: %s' % res[1].violated)
+    if res[2].violated != 'NamedAtIssue':
+        raise MachineryError('NamedAtIssue does not refute the shared-words deviation: %s' % res[2].violated)
+    for (tag, _c, kw), x in zip(jobs[3:], res[3:]):
+        if x.violated != kw['invariants'][0]:
+            raise MachineryError('witness %s not reachable' % kw['invariants'][0])
 
 
 def hist_stage_b(ctx, pool):
     from harness import graph
     n, m = ctx.pick((2, 3), (2, 4))
     cp = os.path.join(tlc.BUILD, 'NdnPacketsCertHist_g.cfg')
-    tlc.write_cfg(cp, constants={'NLoc': n, 'MaxSteps': m, 'DevCache': 'FALSE',
+    tlc.write_cfg(cp, constants={'NLoc': n, 'MaxSteps': m, 'DevCache': 'FALSE', 'DevShare': 'FALSE',
                                  'Fns': ctx.pick('{"self_sign", "derive"}', ALL_FNS)}, invariants=['TypeOK'])
     g = graph.dump('NdnPacketsCertHist', cp, workers=2)
     ctx.add_tlc('NdnPacketsCertHist graph NLoc=%d MaxSteps=%d (%d edges)' % (n, m, g.n_edges), g.tlc)
@@ -919,17 +1205,25 @@ def hist_stage_b(ctx, pool):
         for kind in kinds:
             h, cs = run_history(ctx, kind, g.state[init]['loc'], steps, shapes, pool, 'B')
             # the certificates' locators must be the ones in TLC's state after the path
-            want = [c['kl'] for c in g.state[path[-1][2]]['issued']]
+            final = tlaval.seq(g.state[path[-1][2]]['issued'])
+            want = [c['kl'] for c in final]
             got = [e['kl'] for e in h['ev'] if e['a'] == 'Issue']
             if got != want:
                 ctx.violation('C16/signer-reuse/%s/replay/key-locator-not-the-configured-one' % kind,
                               'one %s signer driven along %s: certificates name locators %s, TLC state says %s' % (kind, steps, got, want),
                               h['rep'])
+            # ... and their issuer ids the reference ones, whatever the caller scribbled over in between
+            for e, c in zip([e for e in h['ev'] if e['a'] == 'Issue'], final):
+                if e['iss'] != c['iss']:
+                    ctx.violation('C16/%s/history/name-after-scribbled-result' % FN_NAME[e['fn']] if e['iss'] == 'scribbled' else
+                                  'C16/signer-reuse/%s/replay/issuer-id-not-the-reference' % kind,
+                                  'one %s signer driven along %s: a %s certificate carries the issuer id "%s", TLC state says "%s"'
+                                  % (kind, steps, FN_NAME[e['fn']], e['iss'], c['iss']), h['rep'])
             hists.append(h)
             certs += cs
             ctx.traces += 1
             ctx.evaluations += len(cs)
-            if any(s_[0] == 'SetLocator' for s_ in steps):
+            if any(s_[0] in ('SetLocator', 'Scribble') for s_ in steps):
                 ctx.nt(['B-hist', kind, steps])
     ctx.sample({'kind': 'B-history', 'signer': hists[0]['signer'], 'events': hists[0]['ev']})
     rej = judge_histories(ctx, hists, certs, 'B')
@@ -944,6 +1238,7 @@ def hist_stage_c(ctx, pool):
         shapes = loc_shapes(ctx.rng, nloc, fixed=False)
         cur = init = ctx.rng.randint(1, nloc)
         steps = []
+        nissued, fresh = 0, []      # results not yet scribbled over
         for _ in range(ctx.rng.randint(4, ctx.pick(8, 16))):
             x = ctx.rng.random()
             if x < 0.4:
@@ -951,8 +1246,12 @@ def hist_stage_c(ctx, pool):
                 steps.append(('SetLocator', cur))
             elif x < 0.5:
                 steps.append(('SignData',))
+            elif x < 0.65 and fresh:
+                steps.append(('Scribble', fresh.pop(ctx.rng.randrange(len(fresh)))))
             else:
                 steps.append(('Issue', ctx.rng.choice(HIST_FNS)))
+                nissued += 1
+                fresh.append(nissued)
         kind = SIGNER_KINDS[k % len(SIGNER_KINDS)]
         h, cs = run_history(ctx, kind, init, steps, shapes, pool, 'C')
         hists.append(h)
@@ -962,6 +1261,283 @@ def hist_stage_c(ctx, pool):
         ctx.nt(['C-hist', kind, steps])
     rej = judge_histories(ctx, hists, certs, 'C')
     ctx.note('C: %d random signer histories (%d certificates) judged by TLC, %d rejected' % (len(hists), len(certs), len(rej)))
+
+
+# ---------------------------------------------------------------- issuing histories with related datetimes (NdnPacketsCertTimes)
+
+TIMES_INV = dict(invariants=['TypeOK', 'EncodesRequested'], properties=['IssuedStable'])
+
+
+def arg_dt(a):
+    """the datetime a caller writes for argument a of NdnPacketsCertTimes"""
+    if a['k'] == 'naive':
+        return inst_dt(a['w'])
+    if a['k'] == 'fixed':
+        return inst_dt(a['w']).replace(tzinfo=timezone(timedelta(minutes=a['off'])))
+    if a['k'] == 'zone':
+        return wall_dt(a['zone'], a['w'], a['fold'])
+    raise MachineryError('unknown kind of datetime argument %r' % (a,))
+
+
+def arg_of(dt, zone=''):
+    """the argument record of a datetime the driver built (zone = IANA name of its ZoneInfo)"""
+    if dt.tzinfo is None:
+        return {'k': 'naive', 'zone': '', 'off': 0, 'w': inst_json(dt), 'fold': 0}
+    if zone:
+        return {'k': 'zone', 'zone': zone, 'off': 0, 'w': inst_json(dt), 'fold': dt.fold}
+    return {'k': 'fixed', 'zone': '', 'off': int(dt.utcoffset().total_seconds()) // 60, 'w': inst_json(dt), 'fold': 0}
+
+
+def arg_inst(a):
+    """the instant the argument denotes, by the DRIVER's arithmetic (datetime / zoneinfo)"""
+    dt = arg_dt(a)
+    return dt if dt.tzinfo is None else to_utc(dt)
+
+
+def arg_class(a):
+    return 'naive' if a['k'] == 'naive' else ('utc' if a['off'] == 0 else 'fixed-offset') if a['k'] == 'fixed' else reading_class(arg_dt(a))
+
+
+def tla_arg(v):
+    return {'k': v['k'], 'zone': v['zone'], 'off': v['off'], 'w': {'d': v['w']['d'], 's': v['w']['s']}, 'fold': v['fold']}
+
+
+def times_q(fn, a, b, n, k, host):
+    """the request (NdnPacketsCert) that one call of an issuing history amounts to"""
+    ia = arg_inst(a)
+    ib = arg_inst(b) if fn == 'new_cert' else ia + timedelta(seconds=n)
+    dur = int((ib - ia).total_seconds())
+
+    def tz(x):
+        return NAIVE if x['k'] == 'naive' else x['off']
+    return {'fn': fn, 'subj': 'ed25519', 'keyname': [{'t': 8, 'l': 3}, {'t': 8, 'l': 3}, {'t': 8, 'l': 8}], 'lit': ['', 'KEY', ''],
+            'enc': 'spki', 'pubbuf': 'bytes', 'publen': None, 'issuer': {'t': 8, 'l': 3}, 'idform': 'plain',
+            'sg': {'kind': 'hmac', 'r': 32, 'a': 32, 'st': True, 'haskl': True, 'kl': [{'t': 8, 'l': 2}, {'t': 8, 'l': 3}, {'t': 8, 'l': 8}],
+                   'nonce': 0, 'time': 0, 'seq': 0},
+            'clock': {'d': 20500 + k, 's': 3600 + k, 'ms': 5}, 'start': inst_json(ia), 'dur': dur, 'host': host,
+            'tz': tz(a), 'zone': a['zone'], 'sw': a['w'], 'sf': a['fold'],
+            'tz2': tz(b) if fn == 'new_cert' else tz(a), 'zone2': b['zone'] if fn == 'new_cert' else '',
+            'ew': b['w'] if fn == 'new_cert' and b['zone'] else inst_json(ib), 'ef': b['fold'] if fn == 'new_cert' else 0}
+
+
+def run_time_history(ctx, steps, pool, stage, host='UTC'):
+    """Issue, in this one process, the certificates of steps = [('NewCert', a, b) | ('Derive', a, n)] with the real new_cert /
+    derive_cert, handing over the datetimes the arguments describe.  Every certificate is checked as a whole (check_issued);
+    -> (events for NdnPacketsCertTimes: call + validity text found in the certificate, certificate records for NdnPacketsCertTrace)."""
+    rep = {'kind': 'time-history', 'steps': [list(x) for x in steps], 'host': host}
+    ev, certs = [], []
+    for k, stp in enumerate(steps):
+        fn = 'new_cert' if stp[0] == 'NewCert' else 'derive'
+        a = stp[1]
+        b, n = (stp[2], 0) if fn == 'new_cert' else (a, stp[2])
+        q = times_q(fn, a, b, n, k, host)
+        q['publen'] = len(pool.pub_der('ed25519'))
+        bt = issue(q, ctx.rng, pool, target=False, times=(arg_dt(a), arg_dt(b) if fn == 'new_cert' else None))
+        if fn == 'derive':          # derive_cert takes the lifetime, not an end
+            if q['dur'] != n:
+                raise MachineryError('lifetime of a history step: %r' % (stp,))
+        lay = check_issued(ctx, q, None, bt, pool, stage, label='%s@issuing-history' % FN_NAME[fn], rep=rep)
+        rec = {'q': q, 'refused': bt.exc is not None, 'lay': pk.lay_json(lay or []), 'nb': [], 'na': [], 'signed': [],
+               'content': getattr(bt, 'content', NO_CONTENT)}
+        if not (lay and len(find(lay, 254)) == 1 and len(find(lay, 255)) == 1):
+            certs.append(rec)
+            break               # reported by check_issued / rejected by NdnPacketsCertTrace; the history ends here
+        rec['nb'] = list(val(bt.wire, find(lay, 254)[0]))
+        rec['na'] = list(val(bt.wire, find(lay, 255)[0]))
+        rec['signed'] = [{'lo': lay[0][3], 'hi': lay[-1][2]}]
+        certs.append(rec)
+        ev.append({'fn': fn, 'a': a, 'b': b, 'n': n, 'nb': rec['nb'], 'na': rec['na'],
+                   'ia': inst_json(arg_inst(a)), 'ib': inst_json(arg_inst(b))})
+    return {'ev': ev, 'rep': rep}, certs
+
+
+def times_violation(ctx, h, k, want, stage):
+    """event #k (0-based) of history h carries another validity text than the specification's"""
+    e = h['ev'][k]
+    if want is None:    # rejected by the judge: WHICH text departs is read off with the driver's own rendering (classification only)
+        def fmt(t):
+            return ('%04d%02d%02dT%02d%02d%02d' % (t.year, t.month, t.day, t.hour, t.minute, t.second)).encode()
+        bad = 'not-before' if bytes(e['nb']) != fmt(inst_dt(e['ia'])) else 'not-after'
+    else:
+        bad = 'not-before' if bytes(e['nb']) != want[0] else 'not-after'
+    x = e['a'] if bad == 'not-before' or e['fn'] == 'derive' else e['b']
+    earlier = [y for p in h['ev'][:k] for y in (p['a'], p['b'])] + ([e['a']] if bad == 'not-after' and e['fn'] == 'new_cert' else [])
+    same = any(y['k'] == x['k'] and y['zone'] == x['zone'] and y['off'] == x['off'] and y['w'] == x['w'] and y['fold'] != x['fold'] for y in earlier)
+    ctx.violation('C16/issuing-history/%s/validity/%s/%s%s' % (FN_NAME[e['fn']], bad, arg_class(x),
+                                                               '/after-the-other-pass-of-the-same-reading' if same else ''),
+                  'stage %s: certificate #%d of an issuing history (%s) carries NotBefore %r NotAfter %r%s; its own request: start %s%s; '
+                  'calls so far: %s' % (stage, k + 1, FN_NAME[e['fn']], bytes(e['nb']), bytes(e['na']),
+                                        '' if want is None else ', the specification says %r / %r' % want,
+                                        arg_dt(e['a']).isoformat() + ' fold=%d' % e['a']['fold'],
+                                        (', end %s fold=%d' % (arg_dt(e['b']).isoformat(), e['b']['fold'])) if e['fn'] == 'new_cert' else ', lifetime %d s' % e['n'],
+                                        [(p['fn'], arg_dt(p['a']).isoformat(), p['a']['fold']) for p in h['ev'][:k]]),
+                  dict(h['rep'], at=k + 1))
+
+
+def times_stage_a_start(ctx):
+    """CertTimeZoneMC (laws of the zone oracle) and NdnPacketsCertTimes (EncodesRequested over every history of the bound, with the
+    situations that must be reached; the "remember the text by the datetime" deviation refuted) - started in the background,
+    side by side with the other stage-A runs; times_stage_a_finish collects."""
+    from concurrent.futures import ThreadPoolExecutor
+    years = '{%s}' % ', '.join(str(y) for y in ctx.pick([2008, 2024, 2038], list(range(2008, 2041)) + [2100, 2400, 5000, 9998]))
+    zones = '{"%s"}' % ctx.pick('Europe/Berlin', 'Australia/Lord_Howe')
+    base = {'PZones': zones, 'PYears': '{2024}', 'Wide': 'FALSE', 'Lifetimes': '{3600}', 'MaxSteps': 2, 'Dev': '"none"'}
+
+    def job(tag, module, consts, kw):
+        cp = os.path.join(tlc.BUILD, '%s_%s_%s.cfg' % (module, tag, ctx.tier))
+        tlc.write_cfg(cp, constants=consts, **kw)
+        return tlc.run(module, cp, workers=1, heavy=False, tag='%s-%s' % (module, tag))
+    jobs = [('a', 'CertTimeZoneMC', {'Years': years}, dict(invariants=['InvRound', 'InvTwoPasses', 'InvFoldOnly', 'InvGap', 'InvOffset'])),
+            ('a', 'NdnPacketsCertTimes', dict(base, Wide='TRUE', Lifetimes='{1800, 3600}'),
+             dict(TIMES_INV, spec='SpecW', constraints=['Reach'], postcondition='Reached')),
+            ('memo', 'NdnPacketsCertTimes', dict(base, Dev='"memo"'), dict(invariants=['EncodesRequested']))]
+    if not ctx.quick:       # longer histories over the narrow family of datetimes (the wide one, three calls deep: 160 000 states, minutes)
+        jobs.append(('deep', 'NdnPacketsCertTimes', dict(base, MaxSteps=3), TIMES_INV))
+    ex = ThreadPoolExecutor(max_workers=len(jobs))
+    return ex, jobs, [ex.submit(job, *j) for j in jobs]
+
+
+def times_stage_a_finish(ctx, started):
+    ex, jobs, futs = started
+    res = [f.result() for f in futs]
+    ex.shutdown()
+    for (tag, module, consts, _kw), r in list(zip(jobs, res))[:2] + list(zip(jobs, res))[3:]:
+        ctx.add_tlc('%s %s' % (module, ' '.join('%s=%s' % kv for kv in sorted(consts.items()) if kv[0] != 'Dev')), r)
+        if r.violated:
+            ctx.violation('C16/spec/%s/%s' % (module, r.violated), 'TLC: %s violated in %s' % (r.violated, module), {'trace': r.errtrace[:3000]})
+        elif not r.ok:
+            raise MachineryError('%s: TLC failed:\n%s' % (module, r.out[-2000:]))
+    m = re.search(r'<<"REACHED", (\w+), (\w+), (\w+), (\w+)>>', res[1].out)
+    if not res[1].violated and (not m or set(m.groups()) != {'TRUE'}):
+        raise MachineryError('NdnPacketsCertTimes: vacuous - one call with both passes / two calls / another clock / gap reached: %s'
+                             % (m.groups() if m else 'no REACHED line'))
+    if res[2].violated != 'EncodesRequested':
+        raise MachineryError('NdnPacketsCertTimes: EncodesRequested does not refute the remembered-text deviation: %s' % res[2].violated)
+
+
+def times_stage_b(ctx, pool, brecs):
+    """Cover paths of the state graph of NdnPacketsCertTimes replayed on the real new_cert / derive_cert in one process; after
+    every call the validity text of every certificate so far is compared with TLC's state."""
+    from harness import graph
+    done = bad = 0
+    combos = ctx.pick([(ctx.rng.choice(KNOWN_ZONES), ctx.rng.choice([2024, 2025, 2038]), 'FALSE')],
+                      [(z, y, 'TRUE') for z in KNOWN_ZONES for y in (2024, ctx.rng.choice([2008, 2038, 2100, 9998]))])
+    for zone, year, wide in combos:
+        step = 1800 if zone == 'Australia/Lord_Howe' else 3600
+        cp = os.path.join(tlc.BUILD, 'NdnPacketsCertTimes_g_%s.cfg' % ctx.tier)
+        tlc.write_cfg(cp, constants={'PZones': '{"%s"}' % zone, 'PYears': '{%d}' % year, 'Wide': wide, 'Lifetimes': '{%d}' % step,
+                                     'MaxSteps': 2, 'Dev': '"none"'}, invariants=['TypeOK', 'EncodesRequested'])
+        g = graph.dump('NdnPacketsCertTimes', cp, workers=2)
+        ctx.add_tlc('NdnPacketsCertTimes graph %s %d Wide=%s (%d edges)' % (zone, year, wide, g.n_edges), g.tlc)
+        paths = graph.edge_cover_paths(g, max_len=2)
+        host = ctx.rng.choice(HOSTS)
+        for init, path in paths:
+            steps = []
+            for act, args, _dst in path:
+                # (graph edges carry the parameters of the named action TLC splits Next into: Ordered(a, b) / Written(fn, a, b, n, x, y))
+                if act == 'Ordered' and len(args) == 2:
+                    steps.append(('NewCert', tla_arg(args[0]), tla_arg(args[1])))
+                elif act == 'Written' and len(args) == 6 and args[0] == 'derive':
+                    steps.append(('Derive', tla_arg(args[1]), args[3]))
+                else:
+                    raise MachineryError('NdnPacketsCertTimes graph: unexpected edge %s%r' % (act, args))
+            h, certs = run_time_history(ctx, steps, pool, 'B', host)
+            brecs += certs
+            done += 1
+            ctx.traces += 1
+            ctx.evaluations += len(certs)
+            for k, ((_a, _args, dst), e) in enumerate(zip(path, h['ev'])):
+                c = tlaval.seq(g.state[dst]['certs'])[k]
+                want = (bytes(tlaval.seq(c['nb'])), bytes(tlaval.seq(c['na'])))
+                if (bytes(e['nb']), bytes(e['na'])) != want:
+                    bad += 1
+                    times_violation(ctx, h, k, want, 'B')
+                    break
+            folds = {(x['w']['d'], x['w']['s'], x['fold']) for s_ in steps for x in s_[1:] if isinstance(x, dict) and x['k'] == 'zone'}
+            if any((d, s_, 1 - f) in folds for d, s_, f in folds):
+                ctx.nt(['B-times', steps])
+            if done == 1:
+                ctx.sample({'kind': 'B-issuing-history', 'steps': steps, 'validity': [(bytes(e['nb']).decode(), bytes(e['na']).decode()) for e in h['ev']]})
+    if not done:
+        raise MachineryError('no issuing history replayed')
+    ctx.note('B: %d cover paths of the issuing-history graph(s) (%s) replayed on the real new_cert / derive_cert: %d departed from TLC\'s states'
+             % (done, ', '.join('%s %d' % c[:2] for c in combos), bad))
+
+
+def rand_time_history(rng, nsteps):
+    """One process's issuing history around ONE change of one zone's clock: the datetimes handed over are drawn from a small
+    family of related ones (both folds of a few readings, the same instants on other clocks, the same readings without a zone)."""
+    zone = rng.choice(KNOWN_ZONES)
+    year = rand_zone_year(rng)
+    fam = []
+    for _ in range(rng.randint(1, 3)):
+        dt, (_at, before, after) = rand_near_change(rng, zone, year, repeated=rng.random() < 0.75)
+        step = abs(before - after).seconds
+        both = [dt.replace(fold=0), dt.replace(fold=1)]
+        fam += [arg_of(x, zone) for x in both]
+        fam += [arg_of(to_utc(x).replace(tzinfo=UTC)) for x in both if rng.random() < 0.5]
+        fam += [arg_of(to_utc(x).replace(tzinfo=UTC).astimezone(timezone(after))) for x in both if rng.random() < 0.3]
+        if rng.random() < 0.5:
+            fam.append(arg_of(dt.replace(tzinfo=None, fold=0)))
+        if rng.random() < 0.3:
+            other = rng.choice(KNOWN_ZONES)
+            fam.append(arg_of(to_utc(rng.choice(both)).replace(tzinfo=UTC).astimezone(ZoneInfo(other)), other))
+    steps = []
+    for _ in range(nsteps):
+        a = rng.choice(fam)
+        if rng.random() < 0.6:
+            later = [b for b in fam if arg_inst(b) >= arg_inst(a)]
+            steps.append(('NewCert', a, rng.choice(later)))
+        else:
+            steps.append(('Derive', a, rng.choice([0, 1, step, step, 2 * step, 3600, 86400, rng.randrange(400 * 86400)])))
+    return steps
+
+
+def judge_time_histories(ctx, hists, stage):
+    """NdnPacketsCertTimesTrace accepts or rejects each recorded history; a corrupted copy of a good one rides along."""
+    recs = [{'ev': h['ev']} for h in hists]
+    good = next((h for h in hists if h['ev']), None)
+    if good is not None:
+        c = json.loads(json.dumps({'ev': good['ev']}))
+        c['ev'][-1]['na'][-1] ^= 1
+        recs.append(c)
+    recs = [r for r in recs]
+    tf = os.path.join(tlc.BUILD, 'c16-times-%s-%s.ndjson' % (stage, ctx.tier))
+    with open(tf, 'w') as f:
+        for r in recs:
+            f.write(json.dumps(r) + '\n')
+    r, rej = tlc.validate_traces('NdnPacketsCertTimesTrace', 'NdnPacketsCertTimesTrace.cfg', tf)
+    ctx.add_tlc('NdnPacketsCertTimesTrace (%d histories)' % len(recs), r)
+    if '"XVAL"' in r.out:
+        raise MachineryError('CertTimeZone and zoneinfo disagree on a datetime of an issuing history: %s' % re.findall(r'<<"XVAL", \d+>>', r.out)[:3])
+    if r.violated:
+        raise MachineryError('NdnPacketsCertTimesTrace: unexpected invariant violation %s\n%s' % (r.violated, r.out[-1500:]))
+    rej = [(i - 1, at) for i, at in rej]
+    if good is not None:
+        if not any(i == len(recs) - 1 for i, _ in rej):
+            raise MachineryError('NdnPacketsCertTimesTrace accepted a corrupted history')
+        rej = [(i, at) for i, at in rej if i != len(recs) - 1]
+    for i, at in rej:
+        k = int(str(at).strip() or 0)
+        if not 0 < k <= len(hists[i]['ev']):
+            raise MachineryError('NdnPacketsCertTimesTrace: rejection without a position: %r' % (at,))
+        times_violation(ctx, hists[i], k - 1, None, stage)
+    return rej
+
+
+def times_stage_c(ctx, pool, recs):
+    hists = []
+    for _ in range(ctx.pick(40, 1500)):
+        steps = rand_time_history(ctx.rng, ctx.rng.randint(2, ctx.pick(8, 40)))
+        h, certs = run_time_history(ctx, steps, pool, 'C', ctx.rng.choice(HOSTS))
+        recs += certs
+        hists.append(h)
+        ctx.traces += 1
+        ctx.evaluations += len(certs)
+        ctx.nt(['C-times', steps])
+    rej = judge_time_histories(ctx, hists, 'C')
+    ctx.note('C: %d random issuing histories with related datetimes (%d certificates) judged by TLC, %d rejected'
+             % (len(hists), sum(len(h['ev']) for h in hists), len(rej)))
 
 
 # ---------------------------------------------------------------- parse / edit histories (NdnPacketsCertParse)
@@ -1413,6 +1989,7 @@ def run(ctx):
     lens = {'Scale': scale, 'LenEc256': len(pool.pub_der('ec256')), 'LenEc384': len(pool.pub_der('ec384')),
             'LenRsa': len(pool.pub_der('rsa')), 'LenEd': len(pool.pub_der('ed25519'))}
     if 'A' in ctx.stages:
+        times_bg = times_stage_a_start(ctx)
         for (fy, ty) in ctx.pick(CAL_WINDOWS_Q, CAL_WINDOWS_T):
             cp = os.path.join(tlc.BUILD, 'CertTimeMC_%d.cfg' % fy)
             tlc.write_cfg(cp, constants={'FromY': fy, 'ToY': ty}, invariants=['InvCivil', 'InvInverse', 'InvRender', 'InvParse', 'InvEpoch'])
@@ -1426,10 +2003,12 @@ def run(ctx):
                 ctx.violation('C16/spec/CertTime/%s' % r.violated, 'TLC: %s violated in CertTimeMC %d..%d' % (r.violated, fy, ty),
                               {'trace': r.errtrace[:3000]})
         recs = datetime_records(ctx.rng, 400)
-        rej = pk.judge(ctx, 'CertTimeTrace', 'CertTimeTrace.cfg', recs, 'c16-datetime')
+        zrecs = zone_records(ctx.rng, ctx.pick(600, 6000))
+        rej = pk.judge(ctx, 'CertTimeTrace', 'CertTimeTrace.cfg', recs + zrecs, 'c16-datetime')
         if rej:
-            raise MachineryError('CertTime and datetime disagree on %s' % [recs[i] for i, _ in rej[:3]])
-        ctx.note('A: CertTime agrees with datetime on %d instants' % len(recs))
+            raise MachineryError('CertTime / CertTimeZone and datetime / zoneinfo disagree on %s' % [(code, (recs + zrecs)[i]) for i, code in rej[:3]])
+        ctx.note('A: CertTime agrees with datetime on %d instants, CertTimeZone with zoneinfo on %d instants and readings around the '
+                 'changes of %d zones\' clocks' % (len(recs), len(zrecs), len(KNOWN_ZONES)))
         cfgp = os.path.join(tlc.BUILD, 'NdnPacketsCertMC_%s.cfg' % ctx.tier)
         tlc.write_cfg(cfgp, constants=lens, invariants=['InvCert', 'InvValue'])
         r = tlc.run('NdnPacketsCertMC', cfgp, workers=ctx.pick(4, int(os.environ.get('VERIF_WORKERS', '16'))))
@@ -1438,6 +2017,7 @@ def run(ctx):
             ctx.violation('C16/spec/%s' % r.violated, 'TLC: %s violated in NdnPacketsCertMC' % r.violated, {'trace': r.errtrace})
         hist_stage_a(ctx)
         parse_stage_a(ctx)
+        times_stage_a_finish(ctx, times_bg)
     if 'B' in ctx.stages:
         out = os.path.join(tlc.BUILD, 'c16-gen-%s.ndjson' % ctx.tier)
         cfgp = os.path.join(tlc.BUILD, 'NdnPacketsCertGen_%s.cfg' % ctx.tier)
@@ -1465,6 +2045,7 @@ def run(ctx):
                 ctx.nt(['B', q])
             ctx.sample({'kind': 'B-request', 'q': q, 'expected_layout': exp['lay'][:5],
                         'not_before': bytes(exp['nb']).decode(), 'not_after': [bytes(x).decode() for x in exp['na']]}, limit=2)
+        times_stage_b(ctx, pool, brecs)
         # the enumerated requests' observations also go through the TLC judge (the validity of self-issued
         # certificates is a predicate over the text found in the wire, evaluated by CertTime!ParseInst)
         report_rejected(ctx, brecs, pk.judge(ctx, 'NdnPacketsCertTrace', 'NdnPacketsCertTrace.cfg', brecs, 'c16-btraces'), 'B')
@@ -1477,9 +2058,10 @@ def run(ctx):
             if nontrivial(r_['q']):
                 ctx.nt(['C', r_['q']])
         ctx.sample({'kind': 'C-record', 'q': recs[0]['q'], 'nb': bytes(recs[0]['nb']).decode(), 'na': bytes(recs[0]['na']).decode()})
+        times_stage_c(ctx, pool, recs)
         rejected = judge_certs(ctx, recs, 'c16-traces')
-        ctx.traces += len(recs)
-        ctx.evaluations += len(recs)
+        ctx.traces += n
+        ctx.evaluations += n
         ctx.note('C: %d recorded issuances judged by TLC, %d rejected' % (len(recs), len(rejected)))
         report_rejected(ctx, recs, rejected, 'C')
         hist_stage_c(ctx, pool)
@@ -1512,6 +2094,10 @@ def judge_certs(ctx, recs, name):
 
 
 def report_rejected(ctx, recs, rejected, stage):
+    if any(str(code).strip() == '30' for _i, code in rejected):
+        i = next(i for i, code in rejected if str(code).strip() == '30')
+        raise MachineryError('CertTimeZone and zoneinfo disagree on the datetimes of a recorded request (NdnPacketsCert!ArgsDenote): %s'
+                             % json.dumps(recs[i]['q'])[:600])
     names = {'2': 'exception', '3': 'layout', '4': 'validity/not-before', '5': 'validity/not-after', '6': 'signed-range',
              '7': 'content-is-not-the-key-given', '8': 'content/key-a-relying-party-imports',
              '9': 'content/certificate-does-not-verify-under-the-key-it-carries'}
@@ -1528,7 +2114,7 @@ def report_rejected(ctx, recs, rejected, stage):
         if code in ('7', '8', '9'):
             sig += '/' + q.get('enc', 'spki')
         if code in ('4', '5') or (code == '3' and zone_class(q) == 'year-below-1000'):
-            sig += '/' + zone_class(q)
+            sig += '/' + zone_class(q, {'4': 'nb', '5': 'na'}.get(code))
         ctx.violation(sig, 'stage %s: recorded issuance rejected by NdnPacketsCertTrace (clause %s = %s): nb=%r na=%r q=%s' % (
             stage, code, names.get(code), bytes(rec['nb']), bytes(rec['na']), json.dumps(q)[:500]),
             {'kind': 'trace', 'rec': rec, 'code': code})
@@ -1541,7 +2127,7 @@ def nontrivial(q):
         return True
     if q['fn'] == 'derive' and q['idform'] in ('typed', 'escaped', 'short'):
         return True
-    if q.get('zone') or q.get('host', 'UTC') != 'UTC' or q['start']['d'] < 0:
+    if q.get('zone') or q.get('zone2') or q.get('host', 'UTC') != 'UTC' or q['start']['d'] < 0:
         return True
     if q['clock']['d'] < 50:
         return True
@@ -1579,7 +2165,23 @@ def replay(ctx, path):
         for v in ctx.violations:
             print('reproduced:', v['sig'], '-', v['what'][:300])
         return 1 if ctx.violations else 0
+    if obj.get('kind') == 'time-history':
+        steps = [tuple(x) for x in obj['steps']]
+        for k, stp in enumerate(steps, 1):
+            print('call %d: %s start %s fold=%d%s' % (k, stp[0], arg_dt(stp[1]).isoformat(), stp[1]['fold'],
+                                                     (' end %s fold=%d' % (arg_dt(stp[2]).isoformat(), stp[2]['fold'])) if stp[0] == 'NewCert' else ' lifetime %d s' % stp[2]))
+        h, certs = run_time_history(ctx, steps, pool, 'replay', obj.get('host', 'UTC'))
+        for k, e in enumerate(h['ev'], 1):
+            print('certificate %d: NotBefore %s NotAfter %s (requested instants, by zoneinfo: %s / %s)' % (
+                k, bytes(e['nb']).decode(), bytes(e['na']).decode(), inst_dt(e['ia']).isoformat(),
+                (inst_dt(e['ib']) if e['fn'] == 'new_cert' else inst_dt(e['ia']) + timedelta(seconds=e['n'])).isoformat()))
+        judge_time_histories(ctx, [h], 'replay')
+        report_rejected(ctx, certs, pk.judge(ctx, 'NdnPacketsCertTrace', 'NdnPacketsCertTrace.cfg', certs, 'c16-replay'), 'replay')
+        for v in ctx.violations:
+            print('reproduced:', v['sig'], '-', v['what'][:300])
+        return 1 if ctx.violations else 0
     if obj.get('kind') == 'trace':
+        norm_q(obj['rec']['q'])
         rej = pk.judge(ctx, 'NdnPacketsCertTrace', 'NdnPacketsCertTrace.cfg', [obj['rec']], 'c16-replay')
         print('recorded issuance:', 'rejected %s' % rej if rej else 'accepted')
         q = obj['rec']['q']
